@@ -90,6 +90,42 @@ theorem reencode_event (e : Ev) (h : simple e = true) (st : EncSt) (hst : st.try
             simp [hinf', hnan', hz, hs, encodeFrom, encodeEv, encZero, encNegInt, encInt, encPosInt, hst, u8]
         · have hz' : CE.F.isZero64 b = false := by simpa using hz
           simp [hinf', hnan', hz', encodeFrom, encodeEv, encFloat, hst]
+  case dfloat d =>
+    simp [encodeEv] at henc; subst henc
+    simp only [renorm]
+    cases d with
+    | val e c =>
+      by_cases hc0 : c = 0
+      · simp [renormDF, hc0, encodeFrom, encodeEv, encDFloat, encZero, encInt, encPosInt, hst, u8]
+      · simp [renormDF, hc0, encodeFrom, encodeEv, encDFloat, hst]
+    | zero => simp [renormDF, encodeFrom, encodeEv, encDFloat, encZero, encInt, encPosInt, hst, u8]
+    | negZero => simp [renormDF, encodeFrom, encodeEv, encDFloat, encZero, encNegInt, hst]
+    | _ => simp [renormDF, encodeFrom, encodeEv, encDFloat, hst]
+  case bigDecimal o =>
+    cases o with
+    | none =>
+      simp [encodeEv] at henc; subst henc
+      simp [renorm, encodeFrom, encodeEv, hst]
+    | some d =>
+      simp [encodeEv] at henc; subst henc
+      simp only [renorm]
+      cases d with
+      | val neg c e =>
+        by_cases hc0 : c = 0
+        · cases neg <;> simp [renormBD, hc0, encodeFrom, encodeEv, encBigDec, encZero, encInt, encPosInt, encNegInt, hst, u8]
+        · by_cases hc : c < 2 ^ 63
+          · have hne : (if neg = true then -(c : Int) else (c : Int)) ≠ 0 := by cases neg <;> simp <;> omega
+            have habs : (if neg = true then -(c : Int) else (c : Int)).natAbs = c := by cases neg <;> simp
+            have hlt : ((if neg = true then -(c : Int) else (c : Int)) < 0) ↔ neg = true := by
+              cases neg <;> simp <;> omega
+            have hmod : c % 2 ^ 64 = c := Nat.mod_eq_of_lt (by omega)
+            simp only [renormBD, hc0, hc, if_true, if_false, encodeFrom, encodeEv, encDFloat, hne, encDFloatVal, habs, hlt,
+              hmod, encBigDec]
+            simp [hst]
+          · simp [renormBD, hc0, hc, encodeFrom, encodeEv, encBigDec, hst]
+      | inf neg => cases neg <;> simp [renormBD, encodeFrom, encodeEv, encBigDec, encDFloat, hst]
+      | nan => simp [renormBD, encodeFrom, encodeEv, encBigDec, encDFloat, hst]
+      | snan => simp [renormBD, encodeFrom, encodeEv, encBigDec, encDFloat, hst]
   case bool b =>
     simp [encodeEv] at henc; subst henc
     cases b <;> simp [renorm, encodeFrom, encodeEv, hst]
@@ -201,6 +237,10 @@ theorem encodeFrom_simple_state : ∀ (l : List Ev) (st st' : EncSt), l.all simp
         | error err => simp [hw] at henc
         | ok w => simp [hw] at henc henc'; rw [← henc, ← henc']
       case bigInt o =>
+        cases o with
+        | none => simp [encodeEv] at henc henc'; rw [← henc, ← henc']
+        | some i => simp [encodeEv] at henc henc'; rw [← henc, ← henc']
+      case bigDecimal o =>
         cases o with
         | none => simp [encodeEv] at henc henc'; rw [← henc, ← henc']
         | some i => simp [encodeEv] at henc henc'; rw [← henc, ← henc']
